@@ -22,6 +22,9 @@ EXPLANATION = (
   " (MEMO) each class-name memo of the WebVTT context is filled by a single producer;"
   " (ORD-preorder) ISD filters that read the parent's styles and write the element's own finish the element before visiting its children;"
   " (STATE-alias / STATE-global) no function of the anchored modules mutates a module- or class-level container, rebinds module / class state or mutates a mutable default argument, so a result never depends on earlier calls;"
+  " (FIN-line) the cue line setting is the region's top edge / bottom edge / centre for displayAlign before / after / center, with the matching alignment (grid evaluation);"
+  " (INDEP) independent tag conditions are not chained with elif;"
+  " (TAINT) the escaping function also replaces '>' (an unescaped --> would be read as a timing line);"
 )
 RULE_TEXT = "per tag pair, per tag append, per supported value, per text flow"
 UNDECIDED = ["cue-setting values (line, align) vs the computed position and alignment", "no empty line / no '-->' inside an SRT payload (SRT has no escaping mechanism)",
